@@ -72,6 +72,9 @@ func genCase(t *rapid.T) Case {
 	ty := gen.DrawType(t, typeOpts())
 	vo := gen.DefaultValueOpts()
 	vo.DynDepth = 1
+	// floats of any bit pattern, signalling NaNs included (the bridge between
+	// abstract values and Go values copies float32 bits, see bridge.FromGo)
+	vo.AnyBits = true
 	v := gen.DrawValue(t, ty, vo)
 	desc := ref.Render(v)
 	if len(desc) > 300 {
